@@ -7,6 +7,7 @@ for the thorough tier (TLC re-checks their typing with QuerySem!WellTyped before
 """
 import random
 from collections import Counter
+from datetime import datetime, timedelta
 
 from pony.orm import core
 from pony.orm.core import Database, PrimaryKey, Optional, Required, Set, db_session, select, desc
@@ -26,6 +27,7 @@ def define(db):
         s = Optional(str, nullable=True)
         flag = Required(bool)
         ref = Optional('T2')
+        dt = Optional(datetime)
 
     class T2(db.Entity):
         id = PrimaryKey(int)
@@ -49,13 +51,18 @@ def unval(x):
         return ''.join(x['v'])
     if t == 'err':
         return 'ERROR'
+    if t == 'dt':
+        return EPOCH + timedelta(minutes=x['v'])
     return x['v']
+
+
+EPOCH = datetime(2020, 1, 1)
 
 
 def dataset_rows(ds):
     """TLC's data set -> (rows of T2, rows of T) as python tuples in table column order."""
     t2 = [(unval(r['id']), unval(r['n'])) for r in ds['T2']]
-    t = [(unval(r['id']), unval(r['a']), unval(r['b']), unval(r['s']), unval(r['flag']), unval(r['ref'])) for r in ds['T']]
+    t = [(unval(r['id']), unval(r['a']), unval(r['b']), unval(r['s']), unval(r['flag']), unval(r['ref']), unval(r['dt'])) for r in ds['T']]
     return t2, t
 
 
@@ -66,8 +73,8 @@ def load_dataset(db, ds):
     con.execute('DELETE FROM "T"')
     con.execute('DELETE FROM "T2"')
     con.executemany('INSERT INTO "T2" ("id", "n") VALUES (?, ?)', t2)
-    con.executemany('INSERT INTO "T" ("id", "a", "b", "s", "flag", "ref") VALUES (?, ?, ?, ?, ?, ?)',
-                    [(i, a, b, s, int(f), r) for i, a, b, s, f, r in t])
+    con.executemany('INSERT INTO "T" ("id", "a", "b", "s", "flag", "ref", "dt") VALUES (?, ?, ?, ?, ?, ?, ?)',
+                    [(i, a, b, s, int(f), r, d and d.strftime('%Y-%m-%d %H:%M:%S.%f')) for i, a, b, s, f, r, d in t])
 
 
 # ---------------------------------------------------------------------------------------------------
@@ -87,6 +94,12 @@ def src(e):
         return repr(''.join(e[1]))
     if t == 'true':
         return 'True'
+    if t == 'param':
+        return param_name(e[1])
+    if t in ('dtadd', 'dtsub'):
+        return '(%s %s timedelta(minutes=%d))' % (src(e[1]), '+' if t == 'dtadd' else '-', e[2])
+    if t == 'dtaddp':
+        return '(%s + %s)' % (src(e[1]), td_name(e[2]))
     if t == 'setattr':
         return '%s.%s' % (e[1], e[2])
     if t == 'bin':
@@ -135,6 +148,38 @@ def src(e):
             return 'count(%s.%s)' % (e[2], e[3])
         return '%s(%s.%s.%s)' % (e[1], e[2], e[3], e[4])
     raise ValueError('unknown node %r' % (e,))
+
+
+def param_name(c):
+    """Name of the Python variable that holds the constant c = ['int', n] / ['str', chars]."""
+    if c[0] == 'int':
+        return 'pi_%s' % str(c[1]).replace('-', 'm')
+    return 'ps_' + ''.join('%02x' % ord(ch) for ch in c[1])
+
+
+def td_name(m):
+    return 'ptd_%s' % str(m).replace('-', 'm')
+
+
+def bindings(e, acc):
+    """Variables (name -> value) the rendered source of e refers to."""
+    if not isinstance(e, list) or not e:
+        return acc
+    if e[0] == 'param':
+        acc[param_name(e[1])] = e[1][1] if e[1][0] == 'int' else ''.join(e[1][1])
+    elif e[0] == 'dtaddp':
+        acc[td_name(e[2])] = timedelta(minutes=e[2])
+    for c in e[1:]:
+        if isinstance(c, list):
+            bindings(c, acc)
+    return acc
+
+
+def query_bindings(q):
+    acc = {}
+    for part in [q['cond']] + list(q['res']) + [k for k, d in q['ord']]:
+        bindings(part, acc)
+    return acc
 
 
 def loops_src(loops, cond):
@@ -186,9 +231,12 @@ def tags_of(e, acc=None):
     elif t == 'setagg':
         acc.add('setagg-' + e[1])
         kids = []
-    elif t in ('attr', 'var', 'nav', 'int', 'str', 'true', 'setattr'):
+    elif t in ('attr', 'var', 'nav', 'int', 'str', 'true', 'setattr', 'param'):
         acc.add(t)
         kids = []
+    elif t in ('dtadd', 'dtsub', 'dtaddp'):
+        acc.add(t)
+        kids = [e[1]]
     elif t in ('intuple', 'notintuple', 'insetattr', 'notinsetattr'):
         acc.add(t)
         kids = [e[1]]
@@ -251,7 +299,8 @@ def has_bool_operand_cmp(e):
 def namespace(db):
     from pony import orm
     ns = {'T': db.T, 'T2': db.T2, 'select': orm.select, 'exists': orm.exists, 'count': orm.count, 'sum': orm.sum,
-          'min': orm.min, 'max': orm.max, 'coalesce': orm.coalesce, 'desc': orm.desc, 'len': len, 'abs': abs}
+          'min': orm.min, 'max': orm.max, 'coalesce': orm.coalesce, 'desc': orm.desc, 'len': len, 'abs': abs,
+          'timedelta': timedelta, 'datetime': datetime}
     return ns
 
 
@@ -260,6 +309,7 @@ def ways_of(db, q):
     writing the query.  The whole call chain is compiled as source in one namespace, because Pony resolves the
     names used inside query strings and lambdas in the frame that calls select()/order_by()."""
     ns = namespace(db)
+    ns.update(query_bindings(q))
     body = body_src(q)
     agg = q['agg']
     keys = ord_src(q)
@@ -291,6 +341,8 @@ def norm_value(v):
         return ('int', v)
     if isinstance(v, str):
         return ('str', v)
+    if isinstance(v, datetime):
+        return ('dt', v)
     if isinstance(v, float) and v == int(v):
         return ('float', v)
     return (type(v).__name__, repr(v))
@@ -343,6 +395,8 @@ def tagged(rows):
                 o.append({'t': 'str', 'v': list(v)})
             elif t in ('int', 'bool'):
                 o.append({'t': t, 'v': v})
+            elif t == 'dt' and (v - EPOCH) % timedelta(minutes=1) == timedelta(0):
+                o.append({'t': 'dt', 'v': (v - EPOCH) // timedelta(minutes=1)})
             else:
                 o.append({'t': 'other', 'v': str(v)})
         out.append(o)
@@ -381,8 +435,8 @@ def plain_objects(ds):
     t2rows, trows = dataset_rows(ds)
     t2 = {i: _Obj(id=i, n=n, ts=_Coll()) for i, n in t2rows}
     ts = []
-    for i, a, b, s, f, r in trows:
-        o = _Obj(id=i, a=a, b=b, s=s, flag=f, ref=t2.get(r))
+    for i, a, b, s, f, r, d in trows:
+        o = _Obj(id=i, a=a, b=b, s=s, flag=f, ref=t2.get(r), dt=d)
         ts.append(o)
         if r is not None:
             t2[r].ts.append(o)
@@ -423,6 +477,7 @@ def cpython_result(q, ds):
     (set / sorted sequence / aggregate) in Python.  Raises Undefined where CPython raises."""
     ts, t2s = plain_objects(ds)
     ns = _py_namespace(ts, t2s)
+    ns.update(query_bindings(q))
     keys = [src(k) for k, d in q['ord']]
     body = '((%s, (%s)) %s)' % (res_src(q['res']) if len(q['res']) > 1 else '(%s,)' % src(q['res'][0]),
                                  ''.join(k + ', ' for k in keys), loops_src(q['loops'], q['cond']))
@@ -456,7 +511,8 @@ def cpython_result(q, ds):
 
 def _py_namespace(ts, t2s):
     return {'T': ts, 'T2': t2s, 'exists': lambda g: any(True for _ in g), 'count': _py_count, 'sum': _py_sum,
-            'min': _py_min, 'max': _py_max, 'coalesce': _py_coalesce, 'len': len, 'abs': abs}
+            'min': _py_min, 'max': _py_max, 'coalesce': _py_coalesce, 'len': len, 'abs': abs,
+            'timedelta': timedelta, 'datetime': datetime}
 
 
 def _constants(e, ints, strs):
@@ -490,7 +546,7 @@ def plain_grid(q):
         for b in ivals:
             for s in svals:
                 for f in (False, True):
-                    o = _Obj(id=len(ts) + 1, a=a, b=b, s=s, flag=f, ref=u[(a + b) % 2])
+                    o = _Obj(id=len(ts) + 1, a=a, b=b, s=s, flag=f, ref=u[(a + b) % 2], dt=EPOCH + timedelta(minutes=30 * a))
                     o.ref.ts.append(o)
                     ts.append(o)
     return ts, u
@@ -511,6 +567,7 @@ def decompiler_changes_meaning(q, way):
     from pony.orm.decompiling import decompile
     ts, t2s = plain_grid(q)
     ns = _py_namespace(ts, t2s)
+    ns.update(query_bindings(q))
     src_name = q['loops'][0][1]
     text = '(' + body_src(q) + ')'
     try:
